@@ -98,6 +98,7 @@ PROPS = {
             J("rsec16", "C12_params", bound="every total length 0..2^62, every goroutine count 1..2^31, symbolic worker index; min 16, divisor 16"),
             J("rsec16", "C12_params_out", bound="same with min 1, divisor 1 (applyMatrixParallelOut)"),
             J("rsec16", "C12_partition_symbolic", bound="the real applyMatrixParallelData and worker closures on buffers of symbolic even length 2..2^61 (no contents), 1..4 requested goroutines: worker ranges consecutive, non-empty, covering; WaitGroup count = workers"),
+            J("rsec16", "C12_coder_goroutines", bound="Cauchy coder 2+2, shard lengths 2,16,30,32,34,48,62,64,66 with symbolic contents, 2..5 goroutines against the single-goroutine coder: GenerateParity and ReconstructData of both data shards"),
             J("rsec16", "C12_parallel_data", bound="shard length 2..24 bytes, goroutines 1..4, 2x2 symbolic matrix, symbolic data, forward and reverse task order"),
             J("rsec16", "C12_parallel_data_long", bound="shard length 26..64 bytes, goroutines 1..6 (2..4 workers, clamped last chunk)"),
             J("rsec16", "C12_parallel_out", bound="shard length 2..6 bytes, goroutines 1..3"),
@@ -111,6 +112,7 @@ PROPS = {
         jobs=[
             J("par1", "C04_roundtrip", bound="1..3 files of 0..3 symbolic bytes (incl. an empty file next to non-empty ones), 1..2 volumes, every subset of data files deleted / overwritten, every subset of volumes deleted, double-check on/off", must_reach=["clean", "repairable", "unrepairable"]),
             J("par1", "C04_roundtrip_unicode", bound="a non-ASCII name and a name needing a UTF-16 surrogate pair, sizes 2 and 0, 2 volumes, every damage subset"),
+            J("par1", "C04_sixteenk", bound="one file of exactly 16384 / 16385 concrete bytes (the 16k-hash boundary), 1 volume, every damage of the C04 scenario incl. appended byte"),
         ],
     ),
     "C10": dict(
@@ -165,6 +167,7 @@ PROPS = {
             J("par2", "C16_crc_window_big", tier="thorough", bound="window sizes 24,28,100,128,256,512,1000,2000"),
             J("par2", "C16_locmap", must_reach=["hit"], bound="the real checksumShardLocationMap.put/get with 2..3 registered slices of 8 symbolic bytes, arbitrary (data-independent) 32-bit CRC values incl. equal CRCs with different content, one symbolic query window"),
             J("par2", "C16_search_arbitrary", bound="1 file of 4/5/8 bytes, slice 4; insertion of 1..4 bytes, truncation at every length, appended bytes, one overwritten slice"),
+            J("par2", "C03_verify_two", bound="2 files of 4 and 5 bytes, 2 blocks, per-file damage or files swapped"),
             J("par2", "C16_search_sym", tier="thorough", bound="1 file of 4/5 fully symbolic bytes; insertion, truncation, append; oracle = slices surviving at a non-overlapped offset", timeout=3000),
         ],
     ),
@@ -185,6 +188,7 @@ PROPS = {
         jobs=[
             J("par2", "C02_default_io", bound="the real defaultFileIO.WriteFile / ReadFile (ioutil -> os.WriteFile real SSA -> modelled OpenFile/Write/Close with POSIX flag semantics) on a path that is missing or holds 0..4 symbolic bytes, new contents 0..3 symbolic bytes, one bystander file"),
             J("par1", "C02_par1_default_io", bound="same, PAR1's defaultFileIO"),
+            J("par1", "C02_par1_garbage_parity", must_reach=["written", "rejected"], bound="PAR1 set of one file of 3 / 16386 bytes, the volume's last parity byte xor a symbolic value with the control hash recomputed, data file missing, double-check on/off"),
             J("par2", "C02_repair_arbitrary", bound="1 file of 4/5/8 bytes, 1 block, arbitrary current content of length 0..len+1, a bystander file present, double-check on/off"),
             J("par2", "C02_garbage_parity", bound="recovery block replaced by arbitrary bytes with a recomputed packet hash; file intact / missing / one slice overwritten"),
             J("par1", "C04_roundtrip_unicode", bound="PAR1: write log of Repair for every damage subset of a 2-file, 2-volume set (the C04 harness)"),
@@ -267,7 +271,7 @@ PROPS = {
             J("par2", "C19_missing_packets", bound="each mandatory packet type removed / main duplicated"),
             J("par2", "C19_file_hash", bound="declared whole-file MD5 = 16 arbitrary bytes, valid recovery blocks 0 and 1, data file missing", must_reach=["written", "rejected"]),
             J("par1", "C19_par1_fields", bound="PAR1: volume number, file count, list size, data offset, data size, entry size, file length at boundary values in the index or a volume, control hash recomputed"),
-            J("par2", "C19_ifsc_count", bound="1..4 checksum pairs for a 2-slice file; data present / missing / first slice damaged; valid recovery blocks"),
+            J("par2", "C19_ifsc_count", bound="0..4 checksum pairs for a 2-slice file; data present / missing / first slice damaged; valid recovery blocks"),
             J("par2", "C19_id_lists", bound="2 files; id list sorted / unsorted / duplicated / short / long; recovery-set count 0..4; either file missing"),
         ],
     ),
